@@ -157,6 +157,9 @@ PROPS["C06"] = dict(
     level_text="seeded fault injection on the wire (drop / duplicate / delay of acknowledged frames and of acks, partitions longer than the retry budget, malformed multipart sequences) with the real Bridge and Executor receive loops, plus single-loss and single-duplication enumeration of every acknowledged frame and ack of recorded base runs; oracle over (sender address, idx): delivered at most once, equal to what was sent, at quiescence delivered exactly once or the sender raised, bounded give-up, malformed sequences rejected",
     level_note=_LN,
 )
+PROPS["C02"]["real"] = PROPS["C02"]["real"] + ["comms harness (group wire-partition): " + ", ".join(REAL_COMMS)]
+PROPS["C02"]["stub"] = PROPS["C02"]["stub"] + ["comms harness: " + ", ".join(STUB_COMMS)]
+
 
 REAL_DP = ["cascade.executor.data_server.DataServer (recv_loop, send_payload, store_payload, maybe_clean, its 2-thread pool)", "cascade.executor.comms (Listener, ReliableSender, callback, send_data)",
            "cascade.shm.{client,server,dataset,disk,api}", "cascade.executor.runner.memory.ds2shmid", "cascade.executor.serde"]
